@@ -440,6 +440,151 @@ func c19r3(p *Program, r *Report) {
 			}
 		}
 	}
+	// the hexadecimal ranges are tested on the input rune itself: a comparison with a character constant made
+	// on a value derived from the rune by a bit operation (case folding with |0x20, masking) lets other
+	// characters pass as digits
+	{
+		derived := map[types.Object]string{}
+		ast.Inspect(rng.Body, func(x ast.Node) bool {
+			as, ok := x.(*ast.AssignStmt)
+			if !ok || len(as.Lhs) != len(as.Rhs) {
+				return true
+			}
+			for i, l := range as.Lhs {
+				id, ok := l.(*ast.Ident)
+				if !ok {
+					continue
+				}
+				bitop := false
+				mentions := false
+				ast.Inspect(as.Rhs[i], func(y ast.Node) bool {
+					if b, ok := y.(*ast.BinaryExpr); ok && (b.Op == token.OR || b.Op == token.AND || b.Op == token.XOR || b.Op == token.AND_NOT) {
+						bitop = true
+					}
+					if rid, ok := y.(*ast.Ident); ok && info.Uses[rid] == runeObj {
+						mentions = true
+					}
+					return true
+				})
+				if bitop && mentions {
+					obj := info.Defs[id]
+					if obj == nil {
+						obj = info.Uses[id]
+					}
+					if obj != nil {
+						derived[obj] = exprStr(as.Rhs[i])
+					}
+				}
+			}
+			return true
+		})
+		// masks of the foldings: c = r | K
+		foldMask := map[types.Object]int64{}
+		ast.Inspect(rng.Body, func(x ast.Node) bool {
+			as, ok := x.(*ast.AssignStmt)
+			if !ok || len(as.Lhs) != len(as.Rhs) {
+				return true
+			}
+			for i, l := range as.Lhs {
+				id, ok := l.(*ast.Ident)
+				if !ok {
+					continue
+				}
+				obj := info.Defs[id]
+				if obj == nil {
+					obj = info.Uses[id]
+				}
+				if b, ok := ast.Unparen(as.Rhs[i]).(*ast.BinaryExpr); ok && b.Op == token.OR && obj != nil {
+					if rid, ok := ast.Unparen(b.X).(*ast.Ident); ok && info.Uses[rid] == runeObj {
+						if k, ok := constInt(info, b.Y); ok {
+							foldMask[obj] = k
+						}
+					}
+				}
+			}
+			return true
+		})
+		isHex := func(c int64) bool { return c >= '0' && c <= '9' || c >= 'a' && c <= 'f' || c >= 'A' && c <= 'F' }
+		// range tests `c >= L && c <= H` on a derived value
+		ast.Inspect(rng.Body, func(x ast.Node) bool {
+			land, ok := x.(*ast.BinaryExpr)
+			if !ok || land.Op != token.LAND {
+				return true
+			}
+			if pb, ok := p.Parent(land).(*ast.BinaryExpr); ok && pb.Op == token.LAND {
+				return true // handled at the top of the chain
+			}
+			var atoms []*ast.BinaryExpr
+			var split func(e ast.Expr)
+			split = func(e ast.Expr) {
+				e = ast.Unparen(e)
+				if b, ok := e.(*ast.BinaryExpr); ok {
+					if b.Op == token.LAND {
+						split(b.X)
+						split(b.Y)
+						return
+					}
+					atoms = append(atoms, b)
+				}
+			}
+			split(land)
+			bounds := map[types.Object][2]int64{}
+			has := map[types.Object][2]bool{}
+			for _, a := range atoms {
+				id, ok := ast.Unparen(a.X).(*ast.Ident)
+				k, isK := constInt(info, a.Y)
+				if !ok || !isK {
+					continue
+				}
+				obj := info.Uses[id]
+				if _, isDerived := derived[obj]; !isDerived {
+					continue
+				}
+				b, h := bounds[obj], has[obj]
+				switch a.Op {
+				case token.GEQ:
+					b[0], h[0] = k, true
+				case token.GTR:
+					b[0], h[0] = k+1, true
+				case token.LEQ:
+					b[1], h[1] = k, true
+				case token.LSS:
+					b[1], h[1] = k-1, true
+				}
+				bounds[obj], has[obj] = b, h
+			}
+			for obj, b := range bounds {
+				if !has[obj][0] || !has[obj][1] {
+					continue
+				}
+				mask, isFold := foldMask[obj]
+				if !isFold {
+					r.Unresolved("ParseUUID tests the hexadecimal range on %s = %s, a derivation of the rune this rule cannot invert", obj.Name(), derived[obj])
+					continue
+				}
+				// preimage of [lo,hi] under r -> r|mask
+				var strays []string
+				for v := b[0]; v <= b[1] && v-b[0] < 4096; v++ {
+					if v&mask != mask {
+						continue
+					}
+					// every r that differs from v only in bits of the mask
+					for sub := mask; ; sub = (sub - 1) & mask {
+						rr := v &^ sub
+						if !isHex(rr) {
+							strays = append(strays, fmt.Sprintf("%#x", rr))
+						}
+						if sub == 0 {
+							break
+						}
+					}
+				}
+				r.Check(len(strays) == 0, land, fmt.Sprintf("ParseUUID: range test [%q,%q] on %s = %s accepts only hexadecimal digits", rune(b[0]), rune(b[1]), obj.Name(), derived[obj]), "every rune that folds into the range is a hexadecimal digit",
+					fmt.Sprintf("the range test [%q,%q] is made on `%s = %s`; the runes %s also fold into that range and are accepted as hexadecimal digits", rune(b[0]), rune(b[1]), obj.Name(), derived[obj], strings.Join(strays, ", ")))
+			}
+			return true
+		})
+	}
 	// every conversion of the input rune (or a value derived from it) to a narrower type keeps its value:
 	// a rune silently truncated to a byte lets non-ASCII characters pass as digits
 	{
